@@ -225,6 +225,30 @@ def check(run):
         run.holds("F-CACHE/face-areas", c, where(fa, call), "cached face_areas come from compute_face_areas() with all-default arguments")
     else:
         run.violation("F-CACHE/face-areas", c, where(fa, call), f"cached face_areas are computed by {norm(call)}: they differ from a fresh default computation")
+    # the value stored as face_areas is, on every path, the first result of THAT all-default call (not an attribute another call may have written)
+    c = "Grid.face_areas:stored-value-from-default-call"
+    bad = None
+    n_store = 0
+    for p in enumerate_paths(fa.node.body):
+        env = {}
+        for e in p.events:
+            if isinstance(e, ast.Assign) and len(e.targets) == 1:
+                t, v = e.targets[0], e.value
+                if isinstance(t, ast.Tuple) and isinstance(v, ast.Call) and (dotted(v.func) or [""])[-1] == "compute_face_areas" and not v.args and not v.keywords and isinstance(t.elts[0], ast.Name):
+                    env[t.elts[0].id] = "default-areas"
+                if isinstance(t, ast.Subscript) and str_const(t.slice) == "face_areas":
+                    n_store += 1
+                    data = None
+                    if isinstance(v, ast.Call):
+                        data = next((k.value for k in v.keywords if k.arg == "data"), v.args[0] if v.args else None)
+                    if not (isinstance(data, ast.Name) and env.get(data.id) == "default-areas"):
+                        bad = (e, norm(data) if data is not None else norm(v)[:40])
+    if bad:
+        run.violation("F-CACHE/face-areas", c, where(fa, bad[0]), f"the cached face_areas are taken from {bad[1]}, not from the result of compute_face_areas() with default arguments on this path: after compute_face_areas(other rule/order) the cached areas are those of the other rule")
+    elif n_store:
+        run.holds("F-CACHE/face-areas", c, where(fa), "face_areas is stored from the first result of the all-default compute_face_areas() call on every path")
+    else:
+        run.incomplete("F-CACHE/face-areas", c, where(fa), "no store of face_areas found in the getter")
     _memo_paths(run, P, f)
     reads_cache = any(str_const(n.slice) == "face_areas" for n in ast.walk(f.node) if isinstance(n, ast.Subscript)) or any(isinstance(n, ast.Attribute) and n.attr == "face_areas" for n in ast.walk(f.node))
     c = "Grid.compute_face_areas:ignores-cache"
